@@ -363,13 +363,13 @@ LAT_CONFIGS = {
             ('ring8-convex-bounds', q(**{**REG, 'V_REGION_HI': 4})),
             ('line5-allworlds', q(V_TOPO='line', V_N=5, V_MAXD=2, V_LVS=1, V_BIAS='p', V_MAXT=3, V_MAXCALLS=2, V_WORLDS='all')),
             ('ring6-few', q(V_TOPO='ring', V_N=6, V_MAXD=2, V_LVS=2, V_BIAS='0', V_MAXT=3, V_MAXCALLS=2, V_WORLDS='few')),
-            ('grid3x3', q(V_TOPO='grid', V_N=9, V_W=3, V_MAXD=2, V_LVS=1, V_BIAS='0', V_MAXT=2, V_MAXCALLS=2, V_WORLDS='few', V_PROBLEMS='one', V_EMIT_ALL=1)),
+            ('grid3x3', q(V_TOPO='grid', V_N=9, V_W=3, V_MAXD=2, V_LVS=1, V_BIAS='0', V_MAXT=2, V_MAXCALLS=2, V_WORLDS='few', V_PROBLEMS='one')),
             ('line5-api', q(V_TOPO='line', V_N=5, V_MAXD=2, V_LVS=1, V_BIAS='1', V_MAXT=1, V_MAXCALLS=4, V_WORLDS='few', V_PROBLEMS='one')),
             # setup(problem, checker) in every combination of two problem objects and two checker objects, the
             # second checker walling off the middle or rejecting the start
             ('line5-api-recheck', q(V_TOPO='line', V_N=5, V_MAXD=2, V_LVS=1, V_BIAS='1', V_MAXT=1, V_MAXCALLS=5, V_WORLDS='free', V_WORLDS2='alt', V_CHECKERS='free', V_PROBLEMS='one')),
             # problem definitions with a second start state (walled off / invalid in some worlds)
-            ('line5-twostarts', q(V_TOPO='line', V_N=5, V_MAXD=2, V_LVS=1, V_BIAS='0', V_MAXT=2, V_MAXCALLS=2, V_WORLDS='few', V_PROBLEMS='twostarts', V_EMIT_ALL=1)),
+            ('line5-twostarts', q(V_TOPO='line', V_N=5, V_MAXD=2, V_LVS=1, V_BIAS='0', V_MAXT=2, V_MAXCALLS=2, V_WORLDS='few', V_PROBLEMS='twostarts')),
         ],
         'thorough': [
             ('line7-allworlds', q(V_TOPO='line', V_N=7, V_MAXD=3, V_LVS=1, V_BIAS='p', V_MAXT=3, V_MAXCALLS=2, V_WORLDS='all')),
@@ -383,12 +383,12 @@ LAT_CONFIGS = {
         'quick': [
             ('ring8-convex-bounds', q(**{**REG, 'V_REGION_HI': 4})),
             ('line5-allworlds', q(V_TOPO='line', V_N=5, V_MAXD=2, V_RAD2=5, V_LVS=1, V_BIAS='p', V_MAXT=2, V_MAXCALLS=2, V_WORLDS='all')),
-            ('ring6-rewire', q(V_TOPO='ring', V_N=6, V_MAXD=2, V_RAD2=3, V_LVS=1, V_BIAS='0', V_MAXT=3, V_MAXCALLS=2, V_WORLDS='few', V_PROBLEMS='one', V_EMIT_ALL=1)),
+            ('ring6-rewire', q(V_TOPO='ring', V_N=6, V_MAXD=2, V_RAD2=3, V_LVS=1, V_BIAS='0', V_MAXT=3, V_MAXCALLS=2, V_WORLDS='few', V_PROBLEMS='one')),
             ('grid3x2', q(V_TOPO='grid', V_N=6, V_W=3, V_MAXD=2, V_RAD2=5, V_LVS=1, V_BIAS='0', V_MAXT=3, V_MAXCALLS=2, V_WORLDS='few', V_PROBLEMS='one')),
             ('ring6-integer-radius', q(V_TOPO='ring', V_N=6, V_MAXD=1, V_RAD2=4, V_LVS=1, V_BIAS='0', V_MAXT=3, V_MAXCALLS=2, V_WORLDS='few', V_PROBLEMS='one')),
             ('line5-api', q(V_TOPO='line', V_N=5, V_MAXD=2, V_RAD2=5, V_LVS=1, V_BIAS='1', V_MAXT=1, V_MAXCALLS=4, V_WORLDS='free', V_PROBLEMS='one')),
             ('line5-api-recheck', q(V_TOPO='line', V_N=5, V_MAXD=2, V_RAD2=5, V_LVS=1, V_BIAS='1', V_MAXT=1, V_MAXCALLS=5, V_WORLDS='free', V_WORLDS2='alt', V_CHECKERS='free', V_PROBLEMS='one')),
-            ('line5-twostarts', q(V_TOPO='line', V_N=5, V_MAXD=2, V_RAD2=5, V_LVS=1, V_BIAS='0', V_MAXT=2, V_MAXCALLS=2, V_WORLDS='few', V_PROBLEMS='twostarts', V_EMIT_ALL=1)),
+            ('line5-twostarts', q(V_TOPO='line', V_N=5, V_MAXD=2, V_RAD2=5, V_LVS=1, V_BIAS='0', V_MAXT=2, V_MAXCALLS=2, V_WORLDS='few', V_PROBLEMS='twostarts')),
         ],
         'thorough': [
             ('line5-deep', q(V_TOPO='line', V_N=5, V_MAXD=2, V_RAD2=5, V_LVS=1, V_BIAS='p', V_MAXT=3, V_MAXCALLS=2, V_WORLDS='all')),
@@ -402,12 +402,12 @@ LAT_CONFIGS = {
         'quick': [
             ('ring8-convex-bounds', q(**{**REG, 'V_REGION_HI': 4})),
             ('line5-allworlds', q(V_TOPO='line', V_N=5, V_MAXD=2, V_LVS=1, V_BIAS='p', V_MAXT=2, V_MAXCALLS=2, V_WORLDS='all')),
-            ('ring6-few', q(V_TOPO='ring', V_N=6, V_MAXD=1, V_LVS=1, V_BIAS='0', V_MAXT=3, V_MAXCALLS=2, V_WORLDS='few', V_PROBLEMS='one', V_EMIT_ALL=1)),
+            ('ring6-few', q(V_TOPO='ring', V_N=6, V_MAXD=1, V_LVS=1, V_BIAS='0', V_MAXT=3, V_MAXCALLS=2, V_WORLDS='few', V_PROBLEMS='one')),
             ('grid3x2', q(V_TOPO='grid', V_N=6, V_W=3, V_MAXD=2, V_LVS=1, V_BIAS='0', V_MAXT=2, V_MAXCALLS=2, V_WORLDS='few', V_PROBLEMS='one')),
             ('line5-api', q(V_TOPO='line', V_N=5, V_MAXD=2, V_LVS=1, V_BIAS='1', V_MAXT=1, V_MAXCALLS=4, V_WORLDS='free')),
             ('line5-api-recheck', q(V_TOPO='line', V_N=5, V_MAXD=2, V_LVS=1, V_BIAS='1', V_MAXT=1, V_MAXCALLS=5, V_WORLDS='free', V_WORLDS2='alt', V_CHECKERS='free', V_PROBLEMS='one')),
             # problem definitions with a second start state (walled off / invalid in some worlds)
-            ('line5-twostarts', q(V_TOPO='line', V_N=5, V_MAXD=2, V_LVS=1, V_BIAS='0', V_MAXT=2, V_MAXCALLS=2, V_WORLDS='few', V_PROBLEMS='twostarts', V_EMIT_ALL=1)),
+            ('line5-twostarts', q(V_TOPO='line', V_N=5, V_MAXD=2, V_LVS=1, V_BIAS='0', V_MAXT=2, V_MAXCALLS=2, V_WORLDS='few', V_PROBLEMS='twostarts')),
         ],
         'thorough': [
             ('line7-allworlds', q(V_TOPO='line', V_N=7, V_MAXD=2, V_LVS=1, V_BIAS='p', V_MAXT=3, V_MAXCALLS=2, V_WORLDS='all', V_PROBLEMS='one')),
@@ -426,7 +426,7 @@ LAT_CONFIGS = {
             ('line5-api-goalregion', q(V_TOPO='line', V_N=5, V_RAD2=7, V_LVS=1, V_BUILD=3, V_MAXCALLS=3, V_WORLDS='free')),
             ('line6-integer-radius', q(V_TOPO='line', V_N=6, V_RAD2=4, V_LVS=1, V_BUILD=2, V_MAXCALLS=3, V_WORLDS='few', V_PROBLEMS='one')),
             ('line5-api-recheck', q(V_TOPO='line', V_N=5, V_RAD2=5, V_LVS=1, V_BUILD=1, V_MAXCALLS=6, V_WORLDS='free', V_WORLDS2='alt', V_CHECKERS='free', V_PROBLEMS='one')),
-            ('line5-twostarts', q(V_TOPO='line', V_N=5, V_RAD2=3, V_LVS=1, V_BUILD=3, V_MAXCALLS=3, V_WORLDS='few', V_PROBLEMS='twostarts', V_EMIT_ALL=1)),
+            ('line5-twostarts', q(V_TOPO='line', V_N=5, V_RAD2=3, V_LVS=1, V_BUILD=3, V_MAXCALLS=3, V_WORLDS='few', V_PROBLEMS='twostarts')),
         ],
         'thorough': [
             ('line5-many', q(V_TOPO='line', V_N=5, V_RAD2=5, V_LVS=1, V_BUILD=2, V_MAXCALLS=3, V_WORLDS='all')),
